@@ -486,6 +486,11 @@ func ResultValue(ret *ssa.Return, i int) ssa.Value {
 	if !ok {
 		return v
 	}
+	// a deferred closure that assigns the result variable can change what is
+	// returned after the last store seen here
+	if closureStores(al) {
+		return v
+	}
 	var last ssa.Value
 	for _, in := range ret.Block().Instrs {
 		if in == ssa.Instruction(u) {
@@ -499,6 +504,36 @@ func ResultValue(ret *ssa.Return, i int) ssa.Value {
 		return last
 	}
 	return v
+}
+
+// closureStores: some closure capturing the cell stores to it.
+func closureStores(al *ssa.Alloc) bool {
+	found := false
+	seen := map[ssa.Value]bool{}
+	var visit func(addr ssa.Value, inClosure bool)
+	visit = func(addr ssa.Value, inClosure bool) {
+		if seen[addr] || addr.Referrers() == nil {
+			return
+		}
+		seen[addr] = true
+		for _, ref := range *addr.Referrers() {
+			switch x := ref.(type) {
+			case *ssa.Store:
+				if x.Addr == addr && inClosure {
+					found = true
+				}
+			case *ssa.MakeClosure:
+				fn := x.Fn.(*ssa.Function)
+				for i, b := range x.Bindings {
+					if b == addr && i < len(fn.FreeVars) {
+						visit(fn.FreeVars[i], true)
+					}
+				}
+			}
+		}
+	}
+	visit(al, false)
+	return found
 }
 
 // IsConstBool reports whether v is the boolean constant b.
@@ -948,4 +983,58 @@ func FieldSources(al *ssa.Alloc, field string) (leaves []ssa.Value, ok bool) {
 	w := &srcWalk{seen: map[string]bool{}, ok: true}
 	w.stores(al, []string{field}, 0)
 	return w.out, w.ok && len(w.out) > 0
+}
+
+// ResolveCell looks through loads of local variables that are assigned
+// exactly once (also when captured by closures): the value stored. Other
+// values are returned unchanged.
+func ResolveCell(v ssa.Value) ssa.Value {
+	for i := 0; i < 6; i++ {
+		u, ok := v.(*ssa.UnOp)
+		if !ok || u.Op != token.MUL {
+			return v
+		}
+		var al *ssa.Alloc
+		switch a := u.X.(type) {
+		case *ssa.Alloc:
+			al = a
+		case *ssa.FreeVar:
+			al = FreeVarCell(a)
+		}
+		if al == nil {
+			return v
+		}
+		var val ssa.Value
+		n := 0
+		var visit func(addr ssa.Value)
+		seen := map[ssa.Value]bool{}
+		visit = func(addr ssa.Value) {
+			if seen[addr] || addr.Referrers() == nil {
+				return
+			}
+			seen[addr] = true
+			for _, ref := range *addr.Referrers() {
+				switch x := ref.(type) {
+				case *ssa.Store:
+					if x.Addr == addr {
+						n++
+						val = x.Val
+					}
+				case *ssa.MakeClosure:
+					fn := x.Fn.(*ssa.Function)
+					for i, b := range x.Bindings {
+						if b == addr && i < len(fn.FreeVars) {
+							visit(fn.FreeVars[i])
+						}
+					}
+				}
+			}
+		}
+		visit(al)
+		if n != 1 {
+			return v
+		}
+		v = val
+	}
+	return v
 }
